@@ -1223,3 +1223,201 @@ Proof.
     try contradiction; try exact I.
   unfold visible in *. rewrite !filter_app. f_equal. exact H.
 Qed.
+
+(* ---- C3: inserting a line comment ---- *)
+
+(* the text of a one-line comment: no end-of-line inside, not the start of a bracket comment *)
+Definition comment_text (text : str) : bool :=
+  forallb (fun c => negb (is_eol c)) text && negb (opens_bracket text).
+
+Definition line_comment (text : str) : str := hash :: text ++ [nl].
+
+Lemma lex_insert_after_piece (u rest ins : str) (k : tk) :
+  u <> [] ->
+  best (u ++ rest) = Some (k, length u) ->
+  best (u ++ ins ++ rest) = Some (k, length u) ->
+  lex_sim (lex (ins ++ rest)) (lex rest) ->
+  lex_sim (lex (u ++ ins ++ rest)) (lex (u ++ rest)).
+Proof.
+  intros Hu B1 B2 H.
+  rewrite (lex_first_piece u rest k Hu B1), (lex_first_piece u (ins ++ rest) k Hu B2).
+  apply lex_cons_sim. exact H.
+Qed.
+
+Lemma take_while_app_stop (p : char -> bool) (l : str) (c : char) (rest : str) :
+  forallb p l = true -> p c = false -> take_while p (l ++ c :: rest) = l.
+Proof.
+  intros Hl Hc. induction l as [|a l IH].
+  - cbn [app take_while]. rewrite Hc. reflexivity.
+  - cbn [forallb] in Hl. apply andb_true_iff in Hl. destruct Hl as [Ha Hl].
+    cbn [app take_while]. rewrite Ha, (IH Hl). reflexivity.
+Qed.
+
+Lemma drop_while_app_stop (p : char -> bool) (l : str) (c : char) (rest : str) :
+  p c = false -> drop_while p (l ++ c :: rest) = drop_while p l ++ c :: rest.
+Proof.
+  intro Hc. induction l as [|a l IH].
+  - cbn [app drop_while]. rewrite Hc. reflexivity.
+  - cbn [app drop_while]. destruct (p a); [exact IH | reflexivity].
+Qed.
+
+Lemma m_bracket_arg_comment_text (text rest : str) :
+  opens_bracket text = false -> m_bracket_arg (text ++ nl :: rest) = None.
+Proof.
+  intro Ho. destruct text as [|a t1].
+  - reflexivity.
+  - cbn [app m_bracket_arg]. destruct (a =? 91)%N eqn:Ea; [|reflexivity].
+    rewrite skipn_count_while.
+    rewrite (drop_while_app_stop (fun c => (c =? 61)%N) t1 nl rest eq_refl).
+    cbn [opens_bracket] in Ho. rewrite Ea in Ho. cbn [andb] in Ho.
+    destruct (drop_while (fun c => (c =? 61)%N) t1) as [|b t2].
+    + reflexivity.
+    + cbn [app]. rewrite Ho. reflexivity.
+Qed.
+
+Lemma doc_open_comment_text (text rest : str) :
+  opens_bracket text = false -> startswith doc_open (hash :: text ++ nl :: rest) = false.
+Proof.
+  intro Ho. change doc_open with [hash; lbr; lbr; lbr]. cbn [startswith].
+  rewrite N.eqb_refl. cbn [andb].
+  destruct text as [|a t1]; [reflexivity|].
+  cbn [app]. destruct (N.eqb_spec lbr a) as [Ea|Ea]; [|reflexivity]. subst a.
+  cbn [andb]. cbn [opens_bracket] in Ho. change (lbr =? 91)%N with true in Ho. cbn [andb] in Ho.
+  destruct t1 as [|b t2]; [reflexivity|].
+  cbn [app]. destruct (N.eqb_spec lbr b) as [Eb|Eb]; [|reflexivity]. subst b.
+  cbn [drop_while] in Ho. change (lbr =? 61)%N with false in Ho. cbv iota in Ho.
+  change (lbr =? 91)%N with true in Ho. discriminate Ho.
+Qed.
+
+Lemma doc_close_comment_text (text rest : str) :
+  startswith doc_close (hash :: text ++ nl :: rest) = true -> 2 <= length text.
+Proof.
+  change doc_close with [hash; rbr; rbr].
+  destruct text as [|a [|b t]]; cbn [startswith app length]; intro H.
+  - rewrite N.eqb_refl in H. discriminate H.
+  - rewrite N.eqb_refl in H. cbn [andb] in H. apply andb_true_iff in H. destruct H as [_ H].
+    discriminate H.
+  - lia.
+Qed.
+
+Theorem best_line_comment : forall text rest,
+  comment_text text = true ->
+  best (line_comment text ++ rest) = Some (TLineComment, length (line_comment text)).
+Proof.
+  intros text rest H. unfold comment_text in H. apply andb_true_iff in H. destruct H as [Hn Ho].
+  apply negb_true_iff in Ho.
+  unfold line_comment. cbn [app]. rewrite <- app_assoc. cbn [app length].
+  rewrite app_length. cbn [length].
+  assert (LC : m_line_comment (hash :: text ++ nl :: rest) = Some (1 + length text + 1, false)).
+  { cbn [m_line_comment]. change (hash =? 35)%N with true. cbv iota.
+    rewrite (take_while_app_stop _ text nl rest Hn eq_refl), Ho.
+    rewrite (skipn_app_le (length text) text (nl :: rest) (le_n _)), skipn_all. cbn [app].
+    change (nl =? 13)%N with false. cbv iota. reflexivity. }
+  assert (BC : m_bracket_comment (hash :: text ++ nl :: rest) = None).
+  { cbn [m_bracket_comment]. change (hash =? 35)%N with true. cbv iota.
+    rewrite (m_bracket_arg_comment_text text rest Ho). reflexivity. }
+  pose proof (doc_open_comment_text text rest Ho) as DO.
+  rewrite best_results, LC, BC. kill_rules.
+  unfold m_lit. destruct (startswith doc_close (hash :: text ++ nl :: rest)) eqn:DC.
+  - apply doc_close_comment_text in DC. cbn [pick noeof].
+    assert (Bt : better (1 + length text + 1, false) (length doc_close, false) = true).
+    { unfold better. cbn [fst snd]. change (length doc_close) with 3.
+      destruct (Nat.ltb_spec 3 (1 + length text + 1)) as [_|L]; [reflexivity | lia]. }
+    rewrite Bt. reflexivity.
+  - cbn [pick noeof]. reflexivity.
+Qed.
+
+Lemma lex_cons_skipped_sim (k : tk) (u : str) (res : lexres) :
+  skipped k = true -> lex_sim (lex_cons k u res) res.
+Proof.
+  intro H. destruct res as [ts|p]; cbn [lex_cons lex_sim]; [rewrite H; reflexivity | exact I].
+Qed.
+
+(* a line comment at the very beginning (of the input, or of what remains of it) is invisible *)
+Theorem lex_insert_comment_at_start : forall text rest,
+  comment_text text = true ->
+  lex_sim (lex (line_comment text ++ rest)) (lex rest).
+Proof.
+  intros text rest H.
+  rewrite (lex_first_piece (line_comment text) rest TLineComment);
+    [apply lex_cons_skipped_sim; reflexivity | discriminate | apply best_line_comment; exact H].
+Qed.
+
+Theorem lex_insert_comment_after_paren : forall c text rest,
+  c = lpar \/ c = rpar -> comment_text text = true ->
+  lex_sim (lex ([c] ++ line_comment text ++ rest)) (lex ([c] ++ rest)).
+Proof.
+  intros c text rest [-> | ->] H.
+  - apply (lex_insert_after_piece [lpar] rest (line_comment text) TLParen);
+      [discriminate | apply best_lpar_any | apply best_lpar_any |
+       apply lex_insert_comment_at_start; exact H].
+  - apply (lex_insert_comment_at_start text rest) in H.
+    apply (lex_insert_after_piece [rpar] rest (line_comment text) TRParen);
+      [discriminate | apply best_rpar_any | apply best_rpar_any | exact H].
+Qed.
+
+Lemma hash_ident_delim (r : str) : ident_delim (hash :: r) = true.
+Proof. reflexivity. Qed.
+
+Theorem lex_insert_comment_after_ident : forall name text rest,
+  best (name ++ rest) = Some (TIdent, length name) ->
+  comment_text text = true ->
+  lex_sim (lex (name ++ line_comment text ++ rest)) (lex (name ++ rest)).
+Proof.
+  intros name text rest B H.
+  destruct (best_ident_shape _ _ B) as (a & r & F & Ha & Hr).
+  rewrite (firstn_app_le (length name) name rest (le_n _)), firstn_all in F. subst name.
+  apply (lex_insert_after_piece (a :: r) rest (line_comment text) TIdent);
+    [discriminate | exact B | | apply lex_insert_comment_at_start; exact H].
+  apply best_ident_delim; [exact Ha | exact Hr | apply hash_ident_delim].
+Qed.
+
+Example lex_insert_comment_ex :
+  comment_text (s" [ note ]] ") = true /\
+  lex ([lpar] ++ line_comment (s" [ note ]] ") ++ s"a)") = lex ([lpar] ++ s"a)") /\
+  lex (line_comment (s"]]") ++ s"f()") = lex (s"f()") /\
+  lex (s"f" ++ line_comment (s"") ++ s"()") = lex (s"f()").
+Proof. repeat split; vm_compute; reflexivity. Qed.
+
+(* the bracket condition is needed: such a text starts a bracket comment instead *)
+Example lex_insert_comment_needs_no_bracket :
+  comment_text (s"[[x") = false /\ lex (line_comment (s"[[x") ++ s"f()") = LexErr 0.
+Proof. split; vm_compute; reflexivity. Qed.
+
+(* ==== MAIN THEOREMS ==== 
+   lex_all_go_fuel, lex_all_step, best_le                       A1 A2
+   lex_all_concat, lex_all_nonempty, lex_tokens_canon, lex_visible   A3-A6
+   lex_stuck, lex_all_reaches, best_unterminated_quote, best_bad_escape,
+   best_unterminated_bracket_comment, quoted_piece_shape        A7
+   best_space, best_newline, lex_leading_ws                     A8
+   best_ident_delim                                             C1
+   lex_all_app_boundary, lex_insert_ws_after_ident, lex_insert_ws_after_paren,
+   lex_insert_ws_after_quoted                                   C2
+   best_line_comment, lex_insert_comment_at_start, lex_insert_comment_after_paren,
+   lex_insert_comment_after_ident                               C3
+*)
+Print Assumptions lex_all_go_fuel.
+Print Assumptions lex_all_step.
+Print Assumptions best_le.
+Print Assumptions lex_all_concat.
+Print Assumptions lex_all_nonempty.
+Print Assumptions lex_tokens_canon.
+Print Assumptions lex_visible.
+Print Assumptions lex_stuck.
+Print Assumptions lex_all_reaches.
+Print Assumptions best_unterminated_quote.
+Print Assumptions best_bad_escape.
+Print Assumptions best_unterminated_bracket_comment.
+Print Assumptions quoted_piece_shape.
+Print Assumptions best_space.
+Print Assumptions best_newline.
+Print Assumptions lex_leading_ws.
+Print Assumptions best_ident_delim.
+Print Assumptions lex_all_app_boundary.
+Print Assumptions lex_insert_ws_after_ident.
+Print Assumptions lex_insert_ws_after_paren.
+Print Assumptions lex_insert_ws_after_quoted.
+Print Assumptions best_line_comment.
+Print Assumptions lex_insert_comment_at_start.
+Print Assumptions lex_insert_comment_after_paren.
+Print Assumptions lex_insert_comment_after_ident.
